@@ -11,7 +11,8 @@ from sim import kernel, reqs, sched, world
 
 class ThreadedWorld(world.World):
     def __init__(self, actors, scripts, preempts=None, tiebreaks=None,
-                 user_policies=None, seed=0, step_cap=400000, **kw):
+                 user_policies=None, seed=0, step_cap=400000,
+                 release_yields=None, **kw):
         import kmip.services.server.engine as eng
         self._eng_mod = eng
         self._real_threading = eng.threading
@@ -23,7 +24,8 @@ class ThreadedWorld(world.World):
         self.open_req = {}
         world.World.__init__(self, actors, user_policies, seed=seed, **kw)
         self.sched = sched.Scheduler(preempts, tiebreaks, clock=self.clock,
-                                     step_cap=step_cap)
+                                     step_cap=step_cap,
+                                     release_yields=release_yields)
         sched.SimRLock.sched = self.sched
         self.clock.sleeper = self.sched.sleep
 
